@@ -234,8 +234,14 @@ func (ep *ExportingProcess) SendSet(set entities.Set) (int, error) {
 	if setType == entities.Undefined {
 		return 0, fmt.Errorf("set type is not properly defined")
 	}
+	// IDs of the templates which are registered by this call: they are forgotten again if the
+	// template set cannot be sent, as the collector never saw them.
+	var newTemplateIDs []uint16
 	for _, record := range set.GetRecords() {
 		if setType == entities.Template {
+			if !ep.hasTemplate(record.GetTemplateID()) {
+				newTemplateIDs = append(newTemplateIDs, record.GetTemplateID())
+			}
 			ep.updateTemplate(record.GetTemplateID(), record.GetOrderedElementList(), record.GetMinDataRecordLen())
 		} else if setType == entities.Data {
 			err := ep.dataRecSanityCheck(record)
@@ -257,6 +263,10 @@ func (ep *ExportingProcess) SendSet(set entities.Set) (int, error) {
 		}
 	}
 	if err != nil {
+		for _, id := range newTemplateIDs {
+			// Data sets for a template which was not transmitted must keep being refused.
+			_ = ep.deleteTemplate(id)
+		}
 		return bytesSent, err
 	}
 	return bytesSent, nil
@@ -411,6 +421,13 @@ func (ep *ExportingProcess) updateTemplate(id uint16, elements []entities.InfoEl
 }
 
 //nolint:unused // Keeping this function for reference.
+func (ep *ExportingProcess) hasTemplate(id uint16) bool {
+	ep.templateMutex.Lock()
+	defer ep.templateMutex.Unlock()
+	_, exist := ep.templatesMap[id]
+	return exist
+}
+
 func (ep *ExportingProcess) deleteTemplate(id uint16) error {
 	ep.templateMutex.Lock()
 	defer ep.templateMutex.Unlock()
@@ -458,6 +475,38 @@ func (ep *ExportingProcess) dataRecSanityCheck(rec entities.Record) error {
 	}
 	if len(rec.GetBuffer()) < int(ep.templatesMap[templateID].minDataRecLen) {
 		return fmt.Errorf("process: Data Record does not pass the min required length (%d) check for template ID %d", ep.templatesMap[templateID].minDataRecLen, templateID)
+	}
+	// The record encoder only logs values which it cannot encode and leaves the field zeroed (or
+	// truncated), so refuse such values here instead of transmitting an altered field.
+	for _, element := range rec.GetOrderedElementList() {
+		if err := checkElementValue(element); err != nil {
+			return fmt.Errorf("process: invalid value in data record for template ID %d: %v", templateID, err)
+		}
+	}
+	return nil
+}
+
+// checkElementValue returns an error if the value of the element cannot be encoded faithfully
+// for its data type and length.
+func checkElementValue(element entities.InfoElementWithValue) error {
+	switch element.GetDataType() {
+	case entities.Ipv4Address:
+		if element.GetIPAddressValue().To4() == nil {
+			return fmt.Errorf("provided IP %v for element %s does not belong to IPv4 address family", element.GetIPAddressValue(), element.GetName())
+		}
+	case entities.Ipv6Address:
+		if element.GetIPAddressValue().To16() == nil {
+			return fmt.Errorf("provided IPv6 address %v for element %s is not of correct length", element.GetIPAddressValue(), element.GetName())
+		}
+	case entities.MacAddress:
+		if len(element.GetMacAddressValue()) != 6 {
+			return fmt.Errorf("provided MAC address for element %s has length %d instead of 6", element.GetName(), len(element.GetMacAddressValue()))
+		}
+	case entities.OctetArray:
+		ieLen := element.GetInfoElement().Len
+		if ieLen < entities.VariableLength && len(element.GetOctetArrayValue()) != int(ieLen) {
+			return fmt.Errorf("provided value for fixed-length octet array element %s has length %d instead of %d", element.GetName(), len(element.GetOctetArrayValue()), ieLen)
+		}
 	}
 	return nil
 }
